@@ -8,6 +8,8 @@
 
 #include <gdstk/gdstk.hpp>
 
+#include "region.hpp"
+
 using namespace gdstk;
 using sim::W;
 
@@ -106,6 +108,8 @@ struct FileInfo {
     gdspeer::Decoded dec;  // peer decode of the current bytes (gds)
     bool ts_known = false;
     std::array<uint16_t, 6> ts{};  // timestamp the writer was given
+    bool peer_unsupported = false;  // the peer put records into it that gdstk documents as unsupported
+    std::string writer;             // "lib", "writer", "peer"
 };
 
 struct RawHold {
@@ -134,6 +138,7 @@ struct Exec {
     std::vector<model::MLib> models;
     std::map<std::string, FileInfo> finfo;
     std::map<std::string, Library> libs;      // loaded libraries kept across steps
+    std::map<std::string, canon::CLib> canons; // canonical forms kept across steps
     std::map<std::string, RawHold> raws;
     std::map<std::string, WriterSess> writers;
     int step = -1;
@@ -391,6 +396,7 @@ struct Exec {
         clear_policy();
         if (done) b.destroy();
         note_saved(file, op, "gds", true, given);
+        finfo[file].writer = via_writer ? "writer" : "lib";
         count(via_writer ? "save_gds_writer" : "save_gds_lib");
         if (ec != ErrorCode::NoError) count(std::string("save_code_") + bridge::error_name(ec));
         J ctx = J::obj();
@@ -442,8 +448,18 @@ struct Exec {
         fi.model = k;
         fi.ts_known = true;
         for (int i = 0; i < 6; i++) fi.ts[i] = ch.lib_ts[i];
+        fi.peer_unsupported = unsupported;
+        fi.writer = "peer";
         finfo[file] = fi;
+        {
+            uint64_t cb = (ch.elflags ? 1 : 0) | (ch.header_extras ? 2 : 0) | (ch.box_for_rect ? 4 : 0) | (ch.explicit_defaults ? 8 : 0) |
+                          (ch.omit_zero_width ? 16 : 0) | (ch.denorm_reals ? 32 : 0) | (ch.pad_after_endlib ? 64 : 0) |
+                          (ch.xy_split ? 128 : 0) | (ch.text_path_records ? 256 : 0) | (ch.font_bits ? 512 : 0) | (ch.aref ? 1024 : 0);
+            feature_state("peer_gds", k, cb, 0);
+        }
         count("peer_gds");
+        if (ch.xy_split) count("peer_xy_split");
+        if (ch.box_for_rect) count("peer_box");
     }
 
     uint64_t resolve_cut(const J& op, const std::string& src, uint64_t len) {
@@ -719,6 +735,432 @@ struct Exec {
         }
     }
 
+
+
+    static uint64_t model_features(const model::MLib& m) {
+        uint64_t f = 0;
+        auto bit = [&](int b) { f |= 1ULL << b; };
+        for (auto& c : m.cells) {
+            if (!c.polys.empty()) bit(0);
+            if (!c.labels.empty()) bit(1);
+            if (!c.refs.empty()) bit(2);
+            for (auto& p : c.polys) {
+                if (p.rep.type) bit(3 + p.rep.type);          // 4..8
+                if (p.pts.size() > 8190) bit(9);
+                if (p.pts.size() == 4) bit(10);
+                if (!p.props.empty()) bit(11);
+                if (p.hint == 1) bit(12);
+                for (auto& q : p.pts)
+                    if (q.x % 10 || q.y % 10) bit(13);
+            }
+            for (auto& p : c.paths) {
+                bit(p.simple ? (p.impl ? 15 : 14) : 16);
+                bit(17 + p.end);                                // 17..21
+                if (!p.scale_width) bit(22);
+                if (p.rep.type) bit(23);
+                if (p.hw == 0) bit(24);
+            }
+            for (auto& l : c.labels) {
+                if (l.rot_deg != 0) bit(25);
+                if (l.mag != 1) bit(26);
+                if (l.xrefl) bit(27);
+                if (l.rep.type) bit(28);
+                if (l.anchor != 0) bit(29);
+                if (l.text.size() % 2) bit(30);
+            }
+            for (auto& r : c.refs) {
+                if (r.rep.type) bit(30 + r.rep.type);           // 31..35
+                double q = r.rot_deg / 90.0;
+                if (r.rot_deg != 0) bit(q == floor(q) ? 36 : 37);
+                if (r.mag != 1) bit(38);
+                if (r.xrefl) bit(39);
+                if (r.how == 1) bit(40);
+                if (!m.in_lib(r.target)) bit(41);
+                if (!r.props.empty()) bit(42);
+            }
+            if (c.name.size() % 2) bit(43);
+            if (!c.props.empty()) bit(44);
+        }
+        if (!m.props.empty()) bit(45);
+        if (!m.ext_cells.empty()) bit(46);
+        return f;
+    }
+
+    void feature_state(const std::string& what, int model_index, uint64_t a, uint64_t b) {
+        uint64_t h = fnv(what);
+        if (model_index >= 0 && model_index < (int)models.size()) h = sim::Trace::mix(h, model_features(models[model_index]));
+        h = sim::Trace::mix(h, a);
+        h = sim::Trace::mix(h, b);
+        res.states.insert(h);
+    }
+
+    // ------------------------------------------------------------- expectation helpers
+    static bool line_tag(const std::string& line, uint64_t& tag) {
+        // "P L<layer>/<type> ..." or "W L<layer>/<type> ..."
+        size_t a = line.find(" L");
+        if (a == std::string::npos) return false;
+        size_t b = line.find('/', a);
+        size_t c = line.find(' ', b);
+        if (b == std::string::npos || c == std::string::npos) return false;
+        uint64_t layer = strtoull(line.c_str() + a + 2, nullptr, 10);
+        uint64_t type = strtoull(line.c_str() + b + 1, nullptr, 10);
+        tag = (type << 32) | layer;
+        return true;
+    }
+
+    static void filter_canon(canon::CLib& c, const std::set<uint64_t>& keep) {
+        for (auto& kv : c.cells) {
+            for (auto* lines : {&kv.second.polys, &kv.second.paths}) {
+                std::vector<std::string> r;
+                for (auto& l : *lines) {
+                    uint64_t tag;
+                    if (line_tag(l, tag) && keep.count(tag)) r.push_back(l);
+                }
+                lines->swap(r);
+            }
+            for (auto it = kv.second.region.begin(); it != kv.second.region.end();)
+                it = keep.count(it->first) ? std::next(it) : kv.second.region.erase(it);
+        }
+    }
+
+    // canonical expectation for a file gdstk wrote from model k as GDSII
+    struct Expect {
+        canon::CLib c;
+        std::map<std::string, std::set<uint64_t>> region_tags;
+        std::map<std::string, std::map<uint64_t, std::vector<region::Poly>>> region;  // cell -> tag -> originals
+        bool ok = true;
+    };
+
+    Expect expect_gds(int k, uint64_t max_points) {
+        Expect E;
+        const model::MLib& m = models[k];
+        canon::Options o;
+        o.mode = canon::GDS;
+        o.max_points = max_points;
+        E.c = canon::from_model(m, o);
+        for (auto& mc : m.cells) {
+            canon::CCell& cc = E.c.cells[mc.name];
+            for (auto& kv : cc.region) {
+                E.region_tags[mc.name].insert(kv.first);
+                E.region[mc.name][kv.first] = kv.second;
+            }
+            cc.region.clear();
+            for (auto& p : mc.paths) {
+                uint64_t tag = ((uint64_t)p.dtype << 32) | p.layer;
+                if (!p.simple) {
+                    // polygons instead of a PATH record; fractured further when above the limit
+                    std::vector<region::Poly> outl;
+                    uint64_t raw_max = 0;
+                    guarded([&]() { outl = bridge::path_outline(m, p, &raw_max); });
+                    // the writer decides on the vertex count of the outline as computed, before rounding
+                    bool fract = max_points > 4 && raw_max > max_points;
+                    if (fract || p.nelem > 1) {
+                        E.region_tags[mc.name].insert(tag);
+                        for (auto& q : outl) E.region[mc.name][tag].push_back(q);
+                    } else {
+                        std::string props = canon::props_str(p.props, canon::GDS);
+                        for (auto& q : outl) {
+                            bool ok;
+                            std::string line = canon::poly_line(p.layer, p.dtype, q, {}, props, ok);
+                            if (ok) cc.polys.push_back(line);
+                        }
+                    }
+                } else if (p.impl == 1) {
+                    // simple RobustPath: the writer samples the centre line itself
+                    std::vector<region::Poly> cl;
+                    guarded([&]() { cl = bridge::robust_centres(m, p); });
+                    std::string props = canon::props_str(p.props, canon::GDS);
+                    // drop the line from_model produced from the raw spine, add the sampled ones
+                    std::vector<canon::IPt> none;
+                    for (auto& off : canon::rep_offsets(p.rep)) {
+                        std::vector<canon::IPt> sp;
+                        for (auto& q : p.spine) sp.push_back(canon::rgrid(model::Pt{q.x + off.x, q.y + off.y}));
+                        bool ok;
+                        std::string raw = canon::path_line(canon::GDS, p.layer, p.dtype, sp, canon::rgrid(2 * p.hw), p.end,
+                                                           canon::rgrid(p.eu), canon::rgrid(p.ev), p.scale_width, {}, props, ok);
+                        auto it = std::find(cc.paths.begin(), cc.paths.end(), raw);
+                        if (it != cc.paths.end()) cc.paths.erase(it);
+                    }
+                    for (auto& q : cl) {
+                        bool ok;
+                        std::string line = canon::path_line(canon::GDS, p.layer, p.dtype, q, canon::rgrid(2 * p.hw), p.end,
+                                                            canon::rgrid(p.eu), canon::rgrid(p.ev), p.scale_width, {}, props, ok);
+                        if (ok) cc.paths.push_back(line);
+                    }
+                }
+            }
+            std::sort(cc.polys.begin(), cc.polys.end());
+            std::sort(cc.paths.begin(), cc.paths.end());
+        }
+        return E;
+    }
+
+    bool check_regions(const Expect& E, const canon::CLib& got, uint64_t max_points, const std::string& vprop, const J& ctx) {
+        for (auto& ckv : E.region) {
+            auto git = got.cells.find(ckv.first);
+            for (auto& tkv : ckv.second) {
+                std::vector<region::Poly> pieces;
+                if (git != got.cells.end()) {
+                    auto rit = git->second.region.find(tkv.first);
+                    if (rit != git->second.region.end()) pieces = rit->second;
+                }
+                region::Result rr = region::compare(tkv.second, pieces, seed ^ tkv.first, max_points > 4 ? max_points : 0);
+                count("region_comparisons");
+                count("region_samples", rr.samples_used);
+                if (!rr.same) {
+                    viol(vprop, "region", "cell '" + ckv.first + "' tag " + canon::tag_str((uint32_t)tkv.first, (uint32_t)(tkv.first >> 32)) +
+                                              ": re-loaded pieces do not cover the region of the original: " + rr.why, ctx);
+                    return false;
+                }
+            }
+        }
+        return true;
+    }
+
+    Library do_read_gds(const std::string& file, const J& op, ErrorCode& ec, bool& returned) {
+        Library lib = {};
+        Set<Tag> tags = {};
+        bool use_filter = op.at("filter").k == J::Arr;
+        returned = guarded([&]() {
+            if (use_filter)
+                for (auto& t : op.at("filter").a) tags.add(make_tag((uint32_t)t.a[0].i, (uint32_t)t.a[1].i));
+            lib = read_gds(file.c_str(), op.getd("unit", 0), op.getd("tol", 0), use_filter ? &tags : NULL, &ec);
+        });
+        guarded([&]() { tags.clear(); });
+        return lib;
+    }
+
+    // load a GDSII file with the full reader and compare with an expectation
+    void op_load_check(const J& op) {
+        std::string file = op.gets("file");
+        if (!W->fs.exists(file)) return;
+        FileInfo& fi = finfo[file];
+        ErrorCode ec = ErrorCode::NoError;
+        bool returned = false;
+        Library lib = do_read_gds(file, op, ec, returned);
+        J ctx = J::obj();
+        ctx.set("file_state", "complete");
+        ctx.set("writer", fi.writer);
+        if (op.getd("unit", 0) > 0) ctx.set("unit_arg", true);
+        if (op.at("filter").k == J::Arr) ctx.set("filtered", true);
+        count("load_check");
+        if (!returned) {
+            drain_seam_violations(prop, ctx);
+            check_handles(prop, ctx);
+            return;
+        }
+        const J& ex = op.at("expect");
+        Expect E;
+        bool have = false;
+        uint64_t max_points = (uint64_t)ex.geti("max_points", (int64_t)fi.max_points);
+        {
+            uint64_t mp_class = max_points == 0 ? 0 : (max_points < 16 ? 1 : (max_points < 8190 ? 2 : 3));
+            uint64_t a = mp_class | (fi.writer == "writer" ? 8 : (fi.writer == "peer" ? 16 : 0)) | (ex.has("canon") ? 32 : 0) |
+                         (op.getd("unit", 0) > 0 ? 64 : 0) | (op.at("filter").k == J::Arr ? 128 : 0);
+            uint64_t b = 0;
+            if (fi.writer == "peer") b = fnv(finfo[file].dec.error) ^ (fi.peer_unsupported ? 1 : 0);
+            feature_state("load_check", ex.has("model") ? (int)ex.geti("model") : fi.model, a, b ^ (uint64_t)(ex.has("canon") ? step : 0));
+        }
+        if (ex.has("model")) {
+            int k = (int)ex.geti("model");
+            if (k >= 0 && k < (int)models.size()) {
+                if (fi.writer == "peer") {
+                    canon::Options o;
+                    E.c = canon::from_model(models[k], o);
+                } else {
+                    E = expect_gds(k, max_points);
+                }
+                have = true;
+            }
+        } else if (ex.has("canon") && canons.count(ex.gets("canon"))) {
+            E.c = canons[ex.gets("canon")];
+            have = true;
+        }
+        bridge::ExtractOptions xo;
+        xo.mode = canon::GDS;
+        xo.region_tags = E.region_tags;
+        canon::CLib got;
+        guarded([&]() { got = bridge::extract(lib, xo); });
+        if (have) {
+            // error code: what the file legitimately provokes
+            bool dangling = false;
+            for (auto& kv : E.c.cells) (void)kv;
+            if (ex.has("model")) {
+                const model::MLib& m = models[ex.geti("model")];
+                for (auto& c : m.cells)
+                    for (auto& r : c.refs)
+                        if (!m.in_lib(r.target)) dangling = true;
+            }
+            ErrorCode want = ErrorCode::NoError;
+            if (dangling) want = ErrorCode::MissingReference;
+            bool code_ok = ec == want || (fi.peer_unsupported && (ec == ErrorCode::UnsupportedRecord || ec == want)) ||
+                           (ex.has("canon"));
+            if (!code_ok) {
+                viol(prop, "error_code", std::string("read_gds reported ") + bridge::error_name(ec) + " for a valid file (expected " + bridge::error_name(want) + ")", ctx);
+            } else if (lib.cell_array.count == 0 && !E.c.cells.empty()) {
+                viol(prop, "cells", std::string("read_gds returned an empty library, code ") + bridge::error_name(ec), ctx);
+            } else {
+                canon::CLib want_c = E.c;
+                if (op.at("filter").k == J::Arr) {
+                    std::set<uint64_t> keep;
+                    for (auto& t : op.at("filter").a) keep.insert(((uint64_t)t.a[1].i << 32) | (uint64_t)t.a[0].i);
+                    filter_canon(want_c, keep);
+                    for (auto& ckv : E.region)
+                        for (auto it = ckv.second.begin(); it != ckv.second.end();)
+                            it = keep.count(it->first) ? std::next(it) : ckv.second.erase(it);
+                }
+                bool check_unit = !(op.getd("unit", 0) > 0);
+                if (!check_unit && !canon::rel_close(got.unit, op.getd("unit"))) {
+                    viol(prop, "unit", "read_gds with unit=" + canon::real_str(op.getd("unit")) + " returned a library with unit " + canon::real_str(got.unit), ctx);
+                }
+                std::string clause, why;
+                if (canon::differ(want_c, got, check_unit, clause, why)) {
+                    if (ex.has("canon")) ctx.set("expect", "canon");
+                    if (clause == "paths") {
+                        // narrow description of the situation: did the cell hold paths whose consecutive
+                        // vertices were at most one grid step apart when it was loaded the time before?
+                        size_t q0 = why.find("cell '"), q1 = q0 == std::string::npos ? q0 : why.find("':", q0);
+                        if (q1 != std::string::npos) {
+                            std::string cname = why.substr(q0 + 6, q1 - q0 - 6);
+                            auto it = want_c.cells.find(cname);
+                            if (it != want_c.cells.end())
+                                ctx.set("cell_had_path_vertices_one_grid_step_apart", it->second.close_path_vertices > 0);
+                        }
+                    }
+                    viol(prop, clause, why, ctx);
+                } else {
+                    check_regions(E, got, max_points, prop, ctx);
+                }
+            }
+        }
+        if (op.has("keep")) {
+            std::string name = op.gets("keep");
+            // later cycles compare everything as lines: pieces are ordinary polygons by then
+            bridge::ExtractOptions xo2;
+            canon::CLib full;
+            guarded([&]() { full = bridge::extract(lib, xo2); });
+            if (have && ex.has("model")) {
+                full.unit = E.c.unit;  // drift is measured against the original, not the previous cycle
+                full.precision = E.c.precision;
+            } else if (have) {
+                full.unit = E.c.unit;
+                full.precision = E.c.precision;
+            }
+            canons[name] = full;
+            if (libs.count(name)) guarded([&]() { libs[name].free_all(); });
+            libs[name] = lib;
+        } else {
+            guarded([&]() { lib.free_all(); });
+        }
+        drain_seam_violations(prop, ctx);
+        check_handles(prop, ctx);
+    }
+
+    // save a previously loaded library again (cycles >= 2)
+    void op_resave_gds(const J& op) {
+        std::string from = op.gets("from"), file = op.gets("file");
+        if (!libs.count(from)) return;
+        Library& lib = libs[from];
+        tm ts;
+        bool have_ts = tm_from_json(op.at("ts"), ts);
+        tm given = ts;
+        if (!have_ts) sim::civil_from_time(W->clock.now, &given);
+        bool via_writer = op.gets("via") == "writer";
+        uint64_t max_points = (uint64_t)op.geti("max_points");
+        ErrorCode ec = ErrorCode::NoError;
+        guarded([&]() {
+            set_policy(op);
+            if (!via_writer) {
+                ec = lib.write_gds(file.c_str(), max_points, have_ts ? &ts : NULL);
+            } else {
+                GdsWriter w = gdswriter_init(file.c_str(), lib.name, lib.unit, lib.precision, max_points, have_ts ? &ts : NULL, &ec);
+                if (w.out) {
+                    for (uint64_t i = 0; i < lib.cell_array.count; i++) w.write_cell(*lib.cell_array[i]);
+                    w.close();
+                }
+            }
+        });
+        clear_policy();
+        note_saved(file, op, "gds", true, given);
+        finfo[file].writer = via_writer ? "writer" : "lib";
+        count("resave_gds");
+        J ctx = J::obj();
+        drain_seam_violations(prop, ctx);
+        check_handles(prop, ctx);
+    }
+
+    // the independent strict decoder reads what gdstk wrote
+    void op_peer_check(const J& op) {
+        std::string file = op.gets("file");
+        if (!W->fs.exists(file)) return;
+        FileInfo& fi = finfo[file];
+        gdspeer::Decoded& d = truth(file);
+        J ctx = J::obj();
+        ctx.set("writer", fi.writer);
+        count("peer_check");
+        feature_state("peer_check", fi.model, fi.max_points == 0 ? 0 : (fi.max_points < 16 ? 1 : 2), fi.writer == "writer");
+        res.counters["peer_decoded_boundary"] += d.census.boundary;
+        res.counters["peer_decoded_path"] += d.census.path;
+        res.counters["peer_decoded_sref"] += d.census.sref;
+        res.counters["peer_decoded_aref"] += d.census.aref;
+        res.counters["peer_decoded_text"] += d.census.text;
+        res.counters["peer_decoded_multi_xy"] += d.census.multi_xy;
+        if (!d.ok) {
+            viol(prop, "peer_rejects_container", "the independent decoder cannot read the file gdstk wrote: " + d.error, ctx);
+            return;
+        }
+        if (!d.strict_ok) {
+            viol(prop, "peer_strict", "the file gdstk wrote breaks a format rule: " + d.error, ctx);
+            return;
+        }
+        const J& ex = op.at("expect");
+        if (!ex.has("model")) return;
+        int k = (int)ex.geti("model");
+        if (k < 0 || k >= (int)models.size()) return;
+        uint64_t max_points = (uint64_t)ex.geti("max_points", (int64_t)fi.max_points);
+        Expect E = expect_gds(k, max_points);
+        // decoded content -> canonical form (region tags collected the same way as for a load)
+        canon::Options o;
+        canon::CLib got = canon::from_model(d.lib, o);
+        for (auto& ckv : E.region_tags) {
+            auto git = got.cells.find(ckv.first);
+            if (git == got.cells.end()) continue;
+            const model::MCell* dc = d.lib.find(ckv.first);
+            if (!dc) continue;
+            std::vector<std::string> keep;
+            canon::CCell& gc = git->second;
+            gc.polys.clear();
+            for (auto& p : dc->polys) {
+                uint64_t tag = ((uint64_t)p.dtype << 32) | p.layer;
+                std::vector<canon::IPt> pts;
+                for (auto& q : p.pts) pts.push_back(canon::rgrid(q));
+                if (ckv.second.count(tag)) {
+                    canon::dedup(pts, true);
+                    if (pts.size() >= 3) gc.region[tag].push_back(pts);
+                } else {
+                    bool ok;
+                    std::string line = canon::poly_line(p.layer, p.dtype, pts, {}, canon::props_str(p.props, canon::GDS), ok);
+                    if (ok) gc.polys.push_back(line);
+                }
+            }
+            std::sort(gc.polys.begin(), gc.polys.end());
+        }
+        std::string clause, why;
+        if (canon::differ(E.c, got, true, clause, why)) {
+            viol(prop, "peer_" + clause, "decoded by the independent decoder: " + why, ctx);
+        } else {
+            check_regions(E, got, max_points, prop, ctx);
+        }
+        // timestamps: BGNLIB and every BGNSTR carry what the writer was given, twice
+        if (fi.ts_known) {
+            bool ok = true;
+            for (int i = 0; i < 12; i++) ok = ok && d.lib_ts[i] == fi.ts[i % 6];
+            for (auto& t : d.str_ts)
+                for (int i = 0; i < 12; i++) ok = ok && t[i] == fi.ts[i % 6];
+            if (!ok) viol(prop, "peer_timestamp", "BGNLIB/BGNSTR do not carry the timestamp the writer was given (" + ts_str(fi.ts) + ")", ctx);
+        }
+    }
+
     // bounded liveness after the faults: a small library must still save and load
     void op_canary(const J& op) {
         (void)op;
@@ -779,6 +1221,9 @@ struct Exec {
             else if (opname == "sweep") op_sweep(op);
             else if (opname == "flip") op_flip(op);
             else if (opname == "canary") op_canary(op);
+            else if (opname == "load_check") op_load_check(op);
+            else if (opname == "resave_gds") op_resave_gds(op);
+            else if (opname == "peer_check") op_peer_check(op);
             else op_reader(op);
             res.steps++;
         }
